@@ -8,25 +8,25 @@ from sa import props  # noqa: E402
 
 TECH = {
     'C01': 'partial evaluation of the code generator + CFG dominance rules on composed skeletons',
-    'C02': 'exhaustive parser configuration table + writer-chain CFG/shape rules',
+    'C02': 'exhaustive parser configuration table + bounded abstract interpretation (sa/absexec.py, DESIGN 3.6) of the TOP / DISTINCT / DISTINCT COUNT / ORDER BY writer classes on record scenarios with an abstract next writer; writer-chain CFG rules as fall-back',
     'C03': 'routing/staging shape rules over aggregator classes and skeleton aliases',
-    'C04': 'joiner/table shape rules + skeleton CFG rules + regex membership by DFA',
+    'C04': 'bounded abstract interpretation (sa/absexec.py, DESIGN 3.6) of the join map, the joiners and the ON-clause resolution + skeleton CFG rules (incl. must-pass-through of the main-loop evaluation) + regex membership by DFA',
     'C05': 'CFG dominance / path counting on composed UPDATE skeletons',
     'C06': 'interprocedural value-origin (ownership) analysis + who-may-open/execute rules + regex inclusion by automata',
-    'C07': 'configuration-table arity accounting + decision-table shape rules',
-    'C08': 'regex parse-tree case analysis + taint analysis of raw query text + parser shape rules',
+    'C07': 'configuration-table arity accounting + bounded abstract interpretation (sa/absexec.py, DESIGN 3.6) of the header-naming functions (select_output_header, column_info_from_node, JS header inference, star rewrites, EXCEPT) on abstract select lists',
+    'C08': 'regex parse-tree case analysis + taint analysis of raw query text + bounded abstract interpretation (sa/absexec.py, DESIGN 3.6) of literal extraction / re-insertion and clause location on query texts',
     'C09': 'shape rules on variable parsers, escape function and header flags',
-    'C10': 'quote-trigger set comparison + dispatch totality + delimiter-width lint',
-    'C11': 'regex language equivalence by DFA product + splitter shape rules',
-    'C12': 'must-flow CFG analysis of stream reads + buffer store idiom table',
-    'C13': 'import-graph, interface conformance and CLI channel rules',
-    'C14': 'handler CFG analysis on skeletons + warning-flag typestate rules',
+    'C10': 'quote-trigger set comparison + delimiter-width lint + bounded abstract interpretation (sa/absexec.py, DESIGN 3.6) of smart_split per policy and of the Python CSV writer per policy over an abstract stream',
+    'C11': 'regex language equivalence by DFA product + splitter path rules + bounded abstract interpretation (sa/absexec.py, DESIGN 3.6) of the splitter dispatch',
+    'C12': 'bounded abstract interpretation (sa/absexec.py, DESIGN 3.6) of the Python reader stack (get_row_simple / get_row_rfc / get_record) on every text up to 4-5 characters over a 3-4 letter alphabet and every chunk size up to 3, plus lines longer than every constant in the reader; statement-level must-flow rules as fall-back',
+    'C13': 'import-graph, interface conformance and CLI channel rules; the default-policy and error-taxonomy functions are evaluated by bounded abstract interpretation',
+    'C14': 'handler CFG analysis on skeletons + warning-flag rules decided by bounded abstract interpretation (sa/absexec.py, DESIGN 3.6) of get_warnings, normalize_fields and the field-count message builder; call-graph rule for decode errors',
     'C15': 'open/close typestate + exception-edge CFG + protocol phase rules',
     'C16': 'module-state inventory, alias-aware mutation lint, symtable scope check of generated code',
-    'C17': 'escape-taint and scan-and-flush schema rules + regex class membership',
+    'C17': 'bounded abstract interpretation (sa/absexec.py, DESIGN 3.6) of like_to_regex on every abstract pattern of up to 4 characters (JS: also characters outside the basic plane), results compared as regular languages; escape-taint rules as fall-back',
     'C18': 'cross-port comparison of extracted facts and regex languages',
     'C19': 'all reference-semantics rules applied to rbql.js through the common IR',
-    'C20': 'decoder-option and chunk-pipeline shape rules on rbql_csv.js',
+    'C20': 'decoder-option rules + bounded abstract interpretation (sa/absexec.py, DESIGN 3.6) of the JS chunk handler on abstract streams, the record queue and the end-of-stream handler (CFG must-pass-through of the multi-line flush)',
 }
 
 checks = []
